@@ -20,6 +20,7 @@ def gen_case(seed):
     r = random.Random(seed)
     ops = ["node ReDB"]
     connected = set()
+    lastval = {}
     def val(): return r.choice([1, 2, "s", {"k": [1]}, True, [1, "x"]])
     def phase(n):
         for _ in range(n):
@@ -30,8 +31,13 @@ def gen_case(seed):
                 if cands:
                     i = r.choice(cands); connected.add(i); ops.append(f"conn {i}"); continue
                 c = r.choice(sorted(connected))
-            if x < 0.40: ops.append(f"set {c} {xs(r.choice(KEYS))} {js(val())}")
-            elif x < 0.58: ops.append(f"cset {c} {xs(r.choice(KEYS))} {js(val())} {r.choice([0, 0, 1, 1, 2])}")
+            if x < 0.40:
+                k = r.choice(KEYS); vv = lastval.get(k, val()) if r.random() < 0.3 else val(); lastval[k] = vv
+                ops.append(f"set {c} {xs(k)} {js(vv)}")
+            elif x < 0.58:
+                # (a third of the writes repeat the value last written to that key: the kind or the version changes, the value does not)
+                k = r.choice(KEYS); vv = lastval.get(k, val()) if r.random() < 0.4 else val(); lastval[k] = vv
+                ops.append(f"cset {c} {xs(k)} {js(vv)} {r.choice([0, 0, 1, 1, 2])}")
             elif x < 0.62: ops.append(f"del {c} {xs(r.choice(KEYS))}")
             elif x < 0.66: ops.append(f"{r.choice(['churn', 'churnd'])} {c} {r.randint(2, 12)} {xs(r.choice(['a/b', 'b', 'g/x']))}")
             elif x < 0.72: ops.append(f"pdel {c} {xs(r.choice(PATS))}")
@@ -138,6 +144,11 @@ def run(v, tier, seed):
     f28lw = ["node ReDB", "conn 1", "conn 2", f"set 2 {xs('m')} {js(1)}", f"set 1 {xs(lw(1))} {js([{'key': 'w', 'value': 'bye'}])}", f"del 1 {xs(lw(1))}",
              f"set 2 {xs('n')} {js(1)}", "settle", "dump leader", "kill", "start", "dump leader"]
     cases += [("F28-withdrawn-grave-goods", f28), ("F28-withdrawn-last-will", f28lw)]
+    # a write that keeps the value but changes the kind of the entry (plain -> CAS by a cset, CAS -> plain by a forced last will) or
+    # bumps its version is a change like any other: it must reach the database
+    cases.append(("same-value-kind-change", ["node ReDB", "conn 1", "conn 2", f"set 2 {xs('k')} {js('same')}", f"cset 2 {xs('k')} {js('same')} 0",
+                                             f"cset 2 {xs('j')} {js(1)} 0", f"set 1 {xs(lw(1))} {js([{'key': 'j', 'value': 1}])}", f"cset 2 {xs('v')} {js('x')} 0", f"cset 2 {xs('v')} {js('x')} 1",
+                                             "disc 1", "settle", "dump leader", "stop", "start", "dump leader"]))
     # long bursts: the writer wakes up with hundreds of changes queued (its channel holds 1000) and folds them into one
     # transaction; after a clean stop every one of them must be there, after a kill a gap-free prefix
     rb = random.Random(seed * 49979687)
